@@ -291,7 +291,7 @@ func keys(m map[string]bool) string {
 }
 
 func c04DestWins(w *World, r *Report) {
-	ctfk := w.Fn("pkg/chart/v2/util", "coalesceTablesFullKey")
+	ctfk := overlayFn(w)
 	cv := w.Fn("pkg/chart/v2/util", "coalesceValues")
 	mm := w.Fn("pkg/chart/v2/loader", "MergeMaps")
 	piv := w.Fn("pkg/chart/v2/util", "processImportValues")
@@ -467,6 +467,9 @@ func c04LaterWins(w *World, r *Report, mm *ssa.Function) {
 func c04NullDeletes(w *World, r *Report) {
 	for _, name := range []string{"coalesceValues", "coalesceTablesFullKey"} {
 		fn := w.Fn("pkg/chart/v2/util", name)
+		if name == "coalesceTablesFullKey" {
+			fn = overlayFn(w)
+		}
 		if fn == nil {
 			r.Unk("C04/NULL-DELETES", name, "-", "function not found")
 			continue
@@ -494,12 +497,7 @@ func c04NullDeletes(w *World, r *Report) {
 			continue
 		}
 		// conditions on the way from the loop header to the delete
-		var merge ssa.Value
-		for _, p := range fn.Params {
-			if p.Name() == "merge" {
-				merge = p
-			}
-		}
+		merge := mergeFlagOf(fn)
 		kinds := map[string]bool{}
 		bad := ""
 		for b := range loop.Body {
@@ -541,11 +539,11 @@ func c04NullDeletes(w *World, r *Report) {
 			continue
 		}
 		ok, found := false, false
+		ov := overlayFn(w)
 		for _, c := range callInstrs(fn) {
-			if f, _ := calleeOf(c.Common()); f != nil && refBareName(f) == e.callee {
+			if f, _ := calleeOf(c.Common()); f != nil && (refBareName(f) == e.callee || (e.callee == "coalesceTablesFullKey" && ov != nil && origin(f) == ov)) {
 				found = true
-				args := c.Common().Args
-				if b, isC := constBool(args[len(args)-1]); isC && b == e.want {
+				if b, isC := mergeFlagAtCall(c, origin(f)); isC && b == e.want {
 					ok = true
 				}
 			}
@@ -559,7 +557,7 @@ func c04NullDeletes(w *World, r *Report) {
 }
 
 // condKind classifies a branch condition of the merge loops.
-func condKind(c ssa.Value, merge ssa.Value) string {
+func condKind(c ssa.Value, isMerge func(ssa.Value) bool) string {
 	switch x := c.(type) {
 	case *ssa.Extract:
 		if x.Index == 1 {
@@ -571,12 +569,19 @@ func condKind(c ssa.Value, merge ssa.Value) string {
 			}
 		}
 	case *ssa.Parameter:
-		if x == merge {
+		if isMerge(x) {
+			return "merge"
+		}
+	case *ssa.Field:
+		if isMerge(x) {
 			return "merge"
 		}
 	case *ssa.UnOp:
 		if x.Op == token.NOT {
-			return condKind(x.X, merge)
+			return condKind(x.X, isMerge)
+		}
+		if isMerge(x) {
+			return "merge"
 		}
 	case *ssa.BinOp:
 		if (x.Op == token.EQL || x.Op == token.NEQ) && (isNilConst(x.X) || isNilConst(x.Y)) {
@@ -1011,7 +1016,7 @@ func c04ChildSection(w *World, r *Report) {
 		// the predicate was folded into its caller: the merge flag handed to the key-by-key overlay for a
 		// nested table must still be computed from a scan of the loaded dependencies
 		cv := w.Fn("pkg/chart/v2/util", "coalesceValues")
-		ctfk := w.Fn("pkg/chart/v2/util", "coalesceTablesFullKey")
+		ctfk := overlayFn(w)
 		if cv == nil || ctfk == nil {
 			r.Unk("C04/CHILD-SECTION", "anchor", "-", "neither childChartMergeTrue nor coalesceValues/coalesceTablesFullKey found")
 			return
@@ -1260,4 +1265,146 @@ func c04FlagKind(w *World, r *Report) {
 	if n == 0 {
 		r.Unk("C04/FLAG-KIND", "no-site", "-", "no registration of the --set flags found in pkg/cmd")
 	}
+}
+
+
+// overlayFn: the key-by-key overlay (coalesceTablesFullKey on the reference tree). If the function of
+// that name is gone, it is found by role: the function of pkg/chart/v2/util that calls itself, takes two
+// values tables and deletes a key from one of them. (A free function turned into a method of a small
+// struct keeps its table parameters at the same positions: the receiver takes the place of printf.)
+func overlayFn(w *World) *ssa.Function {
+	if fn := w.Fn("pkg/chart/v2/util", "coalesceTablesFullKey"); fn != nil {
+		return fn
+	}
+	isTable := func(t types.Type) bool {
+		mp, ok := t.Underlying().(*types.Map)
+		if !ok || !isStringType(mp.Key()) {
+			return false
+		}
+		_, isIface := mp.Elem().Underlying().(*types.Interface)
+		return isIface
+	}
+	var found *ssa.Function
+	for _, f := range w.FuncsIn("pkg/chart/v2/util") {
+		if f.Parent() != nil || strings.HasSuffix(w.FileOf(f), "_test.go") || f.Name() == "coalesceValues" {
+			continue
+		}
+		nt := 0
+		for _, p := range f.Params {
+			if isTable(p.Type()) {
+				nt++
+			}
+		}
+		if nt < 2 {
+			continue
+		}
+		self, del := false, false
+		for _, c := range callInstrs(f) {
+			if cf, _ := calleeOf(c.Common()); cf != nil && origin(cf) == f {
+				self = true
+			}
+			if bi, ok := c.Common().Value.(*ssa.Builtin); ok && bi.Name() == "delete" {
+				del = true
+			}
+		}
+		if self && del {
+			found = f
+		}
+	}
+	return found
+}
+
+// mergeFlagOf: which values inside fn are "the merge flag" (nulls are kept when it is true): the bool
+// parameter named merge, or — for a method of a struct that carries the flag — the loads of the
+// receiver's only bool field.
+func mergeFlagOf(fn *ssa.Function) func(ssa.Value) bool {
+	for _, p := range fn.Params {
+		if p.Name() == "merge" && isBoolType(p.Type()) {
+			pp := p
+			return func(v ssa.Value) bool { return v == ssa.Value(pp) }
+		}
+	}
+	if fn.Signature.Recv() == nil || len(fn.Params) == 0 {
+		return func(ssa.Value) bool { return false }
+	}
+	recv := ssa.Value(fn.Params[0])
+	rt := recv.Type()
+	if p, ok := rt.Underlying().(*types.Pointer); ok {
+		rt = p.Elem()
+	}
+	st, ok := rt.Underlying().(*types.Struct)
+	if !ok {
+		return func(ssa.Value) bool { return false }
+	}
+	field := -1
+	for i := 0; i < st.NumFields(); i++ {
+		if isBoolType(st.Field(i).Type()) {
+			if field >= 0 {
+				return func(ssa.Value) bool { return false }
+			}
+			field = i
+		}
+	}
+	if field < 0 {
+		return func(ssa.Value) bool { return false }
+	}
+	return func(v ssa.Value) bool {
+		switch x := v.(type) {
+		case *ssa.Field: // value receiver
+			return x.Field == field && x.X == recv
+		case *ssa.UnOp: // pointer receiver, or a spilled value receiver
+			if fa, ok := x.X.(*ssa.FieldAddr); ok && x.Op == token.MUL && fa.Field == field {
+				if fa.X == recv {
+					return true
+				}
+				if al, ok := fa.X.(*ssa.Alloc); ok && al.Referrers() != nil {
+					for _, rf := range *al.Referrers() {
+						if s, ok := rf.(*ssa.Store); ok && s.Addr == ssa.Value(al) && s.Val == recv {
+							return true
+						}
+					}
+				}
+			}
+		}
+		return false
+	}
+}
+
+// mergeFlagAtCall: the constant merge flag a call of the overlay runs with: its last argument, or the
+// bool field of the struct literal it is called on.
+func mergeFlagAtCall(c ssa.CallInstruction, callee *ssa.Function) (bool, bool) {
+	args := c.Common().Args
+	if len(args) == 0 {
+		return false, false
+	}
+	if b, isC := constBool(args[len(args)-1]); isC {
+		return b, true
+	}
+	if callee.Signature.Recv() == nil {
+		return false, false
+	}
+	var lit *ssa.Alloc
+	switch x := args[0].(type) {
+	case *ssa.Alloc:
+		lit = x
+	case *ssa.UnOp:
+		lit, _ = x.X.(*ssa.Alloc)
+	}
+	if lit == nil || lit.Referrers() == nil {
+		return false, false
+	}
+	for _, rf := range *lit.Referrers() {
+		fa, ok := rf.(*ssa.FieldAddr)
+		if !ok || fa.Referrers() == nil {
+			continue
+		}
+		for _, rr := range *fa.Referrers() {
+			if st, ok := rr.(*ssa.Store); ok && st.Addr == ssa.Value(fa) && isBoolType(st.Val.Type()) {
+				if b, isC := constBool(st.Val); isC {
+					return b, true
+				}
+			}
+		}
+	}
+	return false, false
 }
